@@ -329,8 +329,10 @@ func findIDInQueue[M interface{ ID() EventID }](q *queue[M], id EventID, autoID 
 	}
 
 	if autoID {
-		id, err := strconv.ParseUint(id.String(), 10, 64)
-		if err != nil {
+		idStr := id.String()
+		id, err := strconv.ParseUint(idStr, 10, 64)
+		if err != nil || strconv.FormatUint(id, 10) != idStr {
+			// Not an ID generated by this replayer (e.g. "007" was never issued, "7" was).
 			return -1
 		}
 
